@@ -67,8 +67,17 @@ def body_seq(ch, ctx):
     e = ch.choose("end", range(s, len(RECORDS[rec]) + 1))
     strand = ch.choose("strand", "+-.")
     use_strand = ch.choose("use_strand", (True, False))
-    as_path = ch.flag("fasta_as_path")
+    as_path = ch.choose("fasta", ("object", "path", "path_rewritten"))
     path, fa = get_fasta(ctx)
+    if as_path == "path_rewritten":
+        # the same path held another reference a moment ago (regenerated reference at a fixed location)
+        d = ctx.fresh_dir()
+        path = dbutil.write_text(d, "regen.fa", "".join(">%s\n%s\n" % (k, v[::-1]) for k, v in RECORDS.items()))
+        gffutils.Feature(seqid=rec, start=1, end=2, strand="+").sequence(path)
+        for n in os.listdir(d):
+            os.unlink(os.path.join(d, n))
+        path = dbutil.write_text(d, "regen.fa", "".join(">%s\n%s\n%s\n" % (k, v[:7], v[7:]) for k, v in RECORDS.items()))
+    as_path = as_path != "object"
     f = gffutils.Feature(seqid=rec, start=s, end=e, strand=strand)
     exp = RECORDS[rec][s - 1:e]
     if strand == "-" and use_strand:
@@ -92,6 +101,7 @@ def body_bed(ch, ctx):
     name_field = ch.choose("name_field", ("ID", "Name"))
     byid = ch.choose("argument", ("id", "feature"))
     mode = ch.choose("mode", ("thick", "thin"))
+    switch = ch.choose("always_return_list", (True, False))
     off = 100
     if exons:
         s, e = exons[0][0] + off, exons[-1][1] + off
@@ -124,10 +134,13 @@ def body_bed(ch, ctx):
     ctx.sample(lambda: dict(file=lines, argument=byid, mode=mode, name_field=name_field))
     ctx.nontrivial(len(exons) >= 2 or not spans_ok or not exons)
     ctx.outcome((len(exons), span, cds_opt, mode, byid, name_field))
-    sig = dict(n_exons=len(exons), span=span, argument=byid, mode=mode)
+    sig = dict(n_exons=len(exons), span=span, argument=byid, mode=mode, always_return_list=switch)
     kw = dict(name_field=name_field)
     if mode == "thin":
         kw.update(thick_featuretype=None, thin_featuretype=["UTR"])
+    from gffutils import constants
+    orig_switch = constants.always_return_list
+    constants.always_return_list = switch
     try:
         got = db.bed12(arg, **kw)
     except ValueError as ex:
@@ -140,6 +153,8 @@ def body_bed(ch, ctx):
         if exons and not spans_ok:
             ctx.fail("bed12-did-not-raise-on-span-mismatch", sig, file=lines, got=got)
             got = None
+    finally:
+        constants.always_return_list = orig_switch
     blocks = [(a + off, b + off) for a, b in exons] or [(ts, te)]
     if got is not None:
         fields = got.split("\t")
